@@ -65,13 +65,19 @@ func hcCfgText(c int) string {
 	return ""
 }
 
+// hcB2Prefix is module b2's own prefix: its module name, or - valid YANG - the very string
+// that module m uses as its prefix (b2 imports m under another prefix).
+var hcB2Prefix = "b2"
+
 // hcPath spells the absolute schema path of steps as seen from module `from`
-// (a imports m as mm; b2 imports m as mm and a as aa; own prefix = module name).
+// (a imports m as mm; b2 imports m as mm and a as aa; own prefix = module name, for b2 hcB2Prefix).
 func hcPath(steps, nsOf []string, from string) string {
 	p := ""
 	for i, s := range steps {
 		pre := nsOf[i]
-		if pre != from {
+		if pre == from && from == "b2" {
+			pre = hcB2Prefix
+		} else if pre != from {
 			switch pre {
 			case "m":
 				pre = "mm"
@@ -171,6 +177,10 @@ var hcSlimOps = []int{opDirect, opUses, opAugment, opAugment2}
 // hcGenerate draws a schema of n levels.
 func hcGenerate(n int) *hcSchema {
 	sc := &hcSchema{}
+	hcB2Prefix = "b2"
+	if !hcSlim && symChoice(2) == 1 {
+		hcB2Prefix = "m"
+	}
 	if hcSlim {
 		sc.top = symChoice(2)
 	} else {
@@ -263,7 +273,7 @@ func hcGenerate(n int) *hcSchema {
 		`submodule s { yang-version 1.1; belongs-to m { prefix m; } import g2 { prefix g2; } ` + sc.sBody + `}`,
 		`module a { yang-version 1.1; namespace "urn:a"; prefix a; import m { prefix mm; } import g2 { prefix g2; } ` + sc.aBody + `}`,
 		`module g2 { yang-version 1.1; namespace "urn:g2"; prefix g2; ` + sc.gBody + `}`,
-		`module b2 { yang-version 1.1; namespace "urn:b2"; prefix b2; import m { prefix mm; } import a { prefix aa; } import g2 { prefix g2; } ` + sc.bBody + `}`,
+		`module b2 { yang-version 1.1; namespace "urn:b2"; prefix ` + hcB2Prefix + `; import m { prefix mm; } import a { prefix aa; } import g2 { prefix g2; } ` + sc.bBody + `}`,
 	}
 	return sc
 }
